@@ -509,8 +509,13 @@ Definition uv_loop_init (first_loop : bool) (l : ledger) (w : world) : out :=
    the nfds == 0 / -1 handling (1473-1489) and the update_timeout block (1601-1619).
    The clock is virtual: [p_now] is loop->time - base, advanced by what an answer reports.
    Answers of epoll_pwait: interrupted after [e] ms, timed out (waited the whole timeout), or
-   events after [e] ms (dispatch ends the function: nevents != 0, fewer than 1024 events).    *)
-Inductive pans := PIntr (e : Z) | PTimeout | PEvents (e : Z).
+   events after [e] ms (dispatch ends the function: nevents != 0, fewer than 1024 events), or a
+   completely filled batch (the function polls again without blocking, at most 47 times).      *)
+Inductive pans :=
+  | PIntr (e : Z)      (* -1/EINTR after e ms *)
+  | PTimeout           (* 0 events, the whole timeout waited *)
+  | PEvents (e : Z)    (* some events (fewer than 1024) after e ms *)
+  | PFull (e : Z).     (* a completely filled batch, nfds == ARRAY_SIZE(events), after e ms *)
 Inductive pend := PeTimeout | PeEvents | PeBreak | PeStuck.
 
 Record pst := mkP {
@@ -520,11 +525,14 @@ Record pst := mkP {
   p_reset : bool;     (* reset_timeout *)
   p_user : Z;         (* user_timeout *)
   p_ok : bool;        (* the answers so far reported 0 <= elapsed <= timeout of their call *)
-  p_base : Z          (* base - (loop->time at entry); advanced by update_timeout since /repo c841fbc *)
+  p_base : Z;         (* base - (loop->time at entry); advanced by update_timeout since /repo c841fbc *)
+  p_count : Z;        (* count: how many more full batches are polled for again (starts at 48) *)
+  p_full : bool       (* a full batch has been dispatched in this invocation *)
 }.
 Record pres := mkR {
-  r_calls : list (Z * Z);   (* (timeout passed, time since entry at the call), newest first *)
-  r_blocked : Z;            (* time since entry when the function returns *)
+  r_calls : list (Z * Z);        (* (timeout passed, time since entry at the call), newest first *)
+  r_full_calls : list (Z * Z);   (* those of them that were made after a full batch *)
+  r_blocked : Z;                 (* time since entry when the function returns *)
   r_end : pend;
   r_ok : bool
 }.
@@ -533,8 +541,8 @@ Definition elapsed_ok (t e : Z) : bool := (0 <=? e) && ((t <? 0) || (e <=? t)).
 
 (* nfds == 0 || nfds == -1 with reset_timeout != 0: timeout = user_timeout; reset_timeout = 0 *)
 Definition after_reset (s : pst) (now : Z) (ok : bool) : pst :=
-  if p_reset s then mkP now (p_real s) (p_user s) false (p_user s) ok (p_base s)
-  else mkP now (p_real s) (p_timeout s) false (p_user s) ok (p_base s).
+  if p_reset s then mkP now (p_real s) (p_user s) false (p_user s) ok (p_base s) (p_count s) (p_full s)
+  else mkP now (p_real s) (p_timeout s) false (p_user s) ok (p_base s) (p_count s) (p_full s).
 
 (* update_timeout: None = leave the loop *)
 Definition update_timeout (s : pst) : option pst :=
@@ -543,52 +551,63 @@ Definition update_timeout (s : pst) : option pst :=
   else
     let real := p_real s - (p_now s - p_base s) in   (* real_timeout -= (loop->time - base); base = loop->time *)
     if real <=? 0 then None
-    else Some (mkP (p_now s) real real (p_reset s) (p_user s) (p_ok s) (p_now s)).
+    else Some (mkP (p_now s) real real (p_reset s) (p_user s) (p_ok s) (p_now s) (p_count s) (p_full s)).
+
+Definition log_full (s : pst) (flog : list (Z * Z)) : list (Z * Z) :=
+  if p_full s then (p_timeout s, p_now s) :: flog else flog.
 
 (* the script is exhausted: every further call times out *)
-Definition io_poll_tail (s : pst) (log : list (Z * Z)) : pres :=
+Definition io_poll_tail (s : pst) (log flog : list (Z * Z)) : pres :=
   let t := p_timeout s in
   let log := (t, p_now s) :: log in
-  if t <? 0 then mkR log (p_now s) PeStuck (p_ok s)
+  let flog := log_full s flog in
+  if t <? 0 then mkR log flog (p_now s) PeStuck (p_ok s)
   else if p_reset s then
     match update_timeout (after_reset s (p_now s + t) (p_ok s)) with
-    | None => mkR log (p_now s + t) PeBreak (p_ok s)
+    | None => mkR log flog (p_now s + t) PeBreak (p_ok s)
     | Some s' =>
       let log := (p_timeout s', p_now s') :: log in
-      if p_timeout s' <? 0 then mkR log (p_now s') PeStuck (p_ok s)
-      else mkR log (p_now s' + p_timeout s') PeTimeout (p_ok s)
+      if p_timeout s' <? 0 then mkR log flog (p_now s') PeStuck (p_ok s)
+      else mkR log flog (p_now s' + p_timeout s') PeTimeout (p_ok s)
     end
-  else mkR log (p_now s + t) PeTimeout (p_ok s).
+  else mkR log flog (p_now s + t) PeTimeout (p_ok s).
 
-Fixpoint io_poll_loop (o : list pans) (s : pst) (log : list (Z * Z)) : pres :=
+Fixpoint io_poll_loop (o : list pans) (s : pst) (log flog : list (Z * Z)) : pres :=
   match o with
-  | [] => io_poll_tail s log
+  | [] => io_poll_tail s log flog
   | a :: r =>
     let t := p_timeout s in
     let log := (t, p_now s) :: log in
+    let flog := log_full s flog in
     match a with
     | PEvents e =>
-      mkR log (p_now s + e) PeEvents (p_ok s && elapsed_ok t e)
+      mkR log flog (p_now s + e) PeEvents (p_ok s && elapsed_ok t e)
+    | PFull e =>
+      (* nevents != 0 and nfds == ARRAY_SIZE(events): if (--count != 0) { timeout = 0; continue; }
+         (linux.c:1593-1598); real_timeout and base are left alone *)
+      let ok := p_ok s && elapsed_ok t e in
+      if p_count s - 1 =? 0 then mkR log flog (p_now s + e) PeEvents ok
+      else io_poll_loop r (mkP (p_now s + e) (p_real s) 0 false (p_user s) ok (p_base s) (p_count s - 1) true) log flog
     | PTimeout =>
-      if t <? 0 then mkR log (p_now s) PeStuck (p_ok s)      (* assert(timeout != -1) *)
+      if t <? 0 then mkR log flog (p_now s) PeStuck (p_ok s)      (* assert(timeout != -1) *)
       else if p_reset s then
         match update_timeout (after_reset s (p_now s + t) (p_ok s)) with
-        | None => mkR log (p_now s + t) PeBreak (p_ok s)
-        | Some s' => io_poll_loop r s' log
+        | None => mkR log flog (p_now s + t) PeBreak (p_ok s)
+        | Some s' => io_poll_loop r s' log flog
         end
-      else mkR log (p_now s + t) PeTimeout (p_ok s)          (* nfds == 0: return *)
+      else mkR log flog (p_now s + t) PeTimeout (p_ok s)          (* nfds == 0: return *)
     | PIntr e =>
       let ok := p_ok s && elapsed_ok t e in
       match update_timeout (after_reset s (p_now s + e) ok) with
-      | None => mkR log (p_now s + e) PeBreak ok
-      | Some s' => io_poll_loop r s' log
+      | None => mkR log flog (p_now s + e) PeBreak ok
+      | Some s' => io_poll_loop r s' log flog
       end
     end
   end.
 
 Definition io_poll (metrics : bool) (timeout : Z) (o : list pans) : pres :=
-  io_poll_loop o (if metrics then mkP 0 timeout 0 true timeout true 0
-                  else mkP 0 timeout timeout false 0 true 0) [].
+  io_poll_loop o (if metrics then mkP 0 timeout 0 true timeout true 0 48 false
+                  else mkP 0 timeout timeout false 0 true 0 48 false) [] [].
 
 (* ---- helpers for statements --------------------------------------------------- *)
 Fixpoint strip (o : list ans) : list ans :=
